@@ -81,6 +81,8 @@ def worker(ctx, job):
     from vf.flo import relrefs as _R
     for seed in job.get("reared", []):
         reared_check(ctx, _R, _random.Random(seed))
+    for seed in job.get("gauge", []):
+        gauge_check(ctx, _R, _random.Random(seed))
     from vf.flo import relrefs as R
     for seed in job["seeds"]:
         rng = random.Random(seed)
@@ -406,12 +408,101 @@ def reared_check(ctx, R, rng):
     ctx.case(reared_text(case, base), nontrivial=True)
 
 
+# --------------------------------------------------------------------------- deeds with registered io defaults
+def gauge_deed():
+    """a deed kind registered with an ioinit that has a default (mapping form: ipath, ival), as `doify(ioinits=...)` makes
+    them: without a `per` clause its share lies under the act's own inode -- framer, frame and actor relative"""
+    from ioflo.base import doing
+    from ioflo.aid.odicting import odict
+    if "VfGaugeLevel" not in doing.Doer.Registry:
+        @doing.doify("VfGaugeLevel", base=doing.DoerParam, ioinits=odict(level=odict(ipath="level", ival=0)))
+        def vfGaugeLevel(self, level=None, **kwa):
+            return level
+    return "vf gauge level"
+
+
+GAUGE_POOL = ["alpha", "start", "finish", "reader", "writer", "fa", "xa", "top", "foo", "mb"]
+
+
+def gauge_case(rng):
+    names = rng.sample(GAUGE_POOL, 5)
+    naming = dict(zip(["F", "XA", "XB", "AA", "AB"], names))
+    per = rng.choice(["framer.me.frame.me.reading", "framer.me.reading", ".box.reading", '"framer.me.frame.me.reading"', "reading"])
+    return {"naming": naming, "per": per, "plain_first": rng.random() < 0.5, "ndo": rng.choice([2, 2, 3])}
+
+
+def gauge_text(case, nm):
+    plain = "      do vf gauge level as %s at enter" % nm["AA"]
+    over = "      do vf gauge level as %s at enter per level %s" % (nm["AB"], case["per"])
+    fa = [plain] if case["plain_first"] else [over]
+    fb = [over] if case["plain_first"] else [plain]
+    if case["ndo"] == 3:
+        fb.append("      do vf gauge level as third at enter")
+    return "\n".join(["house h", "", "  framer %s be active first %s" % (nm["F"], nm["XA"]), "    frame %s" % nm["XA"]] + fa +
+                      ["      go next", "    frame %s" % nm["XB"]] + fb + ["      bid stop all", ""]) + "\n"
+
+
+def gauge_model(case, nm):
+    F, XA, XB = nm["F"], nm["XA"], nm["XB"]
+    xplain, xover = (XA, XB) if case["plain_first"] else (XB, XA)
+    inode = lambda x, a: "framer.%s.frame.%s.actor.%s" % (F, x, a)
+    over = {"framer.me.frame.me.reading": "framer.%s.frame.%s.reading" % (F, xover),
+            '"framer.me.frame.me.reading"': "framer.%s.frame.%s.reading" % (F, xover),
+            "framer.me.reading": "framer.%s.reading" % F, ".box.reading": "box.reading",
+            "reading": inode(xover, nm["AB"]) + ".reading"}[case["per"]]
+    out = {nm["AA"]: inode(xplain, nm["AA"]) + ".level", nm["AB"]: over}
+    if case["ndo"] == 3:
+        out["third"] = inode(XB, "third") + ".level"
+    return out
+
+
+def gauge_check(ctx, R, rng):
+    from vf.flo import runner
+    gauge_deed()
+    case = gauge_case(rng)
+    base = case["naming"]
+    variants = [(None, base)]
+    for key in ("F", "XA", "XB", "AA", "AB"):
+        nm = dict(base)
+        nm[key] = "zq%s%d" % (key.lower(), rng.randint(10, 99))
+        variants.append((key, nm))
+    rng.shuffle(variants)          # (every build happens in this one process, in any order)
+    for key, nm in variants:
+        text = gauge_text(case, nm)
+        res = runner.run_text(text, build_only=True, behaviors=["vf.flo.recorder"])
+        if not res.built:
+            ctx.inconclusive_case("gauge program did not build: %s" % (res.build_msgs[-2:],))
+            return
+        got = {}
+        for fr in res.skedder.houses[0].framers:
+            for x in fr.frameNames.values():
+                for act in x.enacts:
+                    sh = (act.parms or {}).get("level")
+                    if sh is not None and hasattr(sh, "name"):
+                        got[act.actor.name[:1].lower() + act.actor.name[1:]] = sh.name
+        model = gauge_model(case, nm)
+        ctx.event(len(model))
+        ctx.hit("registered_io_default_references_checked", len(model))
+        for actor, want in sorted(model.items()):
+            ok = got.get(actor) == want
+            if not ctx.check(ok, "registered-io-default/%s-resolves-elsewhere" % ("plain" if actor != nm["AB"] else "redirected"),
+                             "`do vf gauge level as %s`%s: its registered io default `level` resolved to %s, expected %s%s" % (
+                                 actor, "" if actor != nm["AB"] else " per level " + case["per"], got.get(actor), want,
+                                 (" (after renaming %s)" % key) if key else ""),
+                             lambda: {"program": text, "renamed": key, "observed": got, "expected": model}):
+                ctx.case(text, nontrivial=True)
+                return
+    ctx.case(gauge_text(case, base), nontrivial=True)
+
+
 def run(ctx):
     n = ctx.pick(96, 4000)
     seeds = [ctx.rng.randrange(1 << 30) for _ in range(n)]
     k = 16
     reared = [ctx.rng.randrange(1 << 30) for _ in range(ctx.pick(64, 2000))]
-    ctx.shard([{"seeds": seeds[i::k], "reared": reared[i::k]} for i in range(k)], timeout=ctx.pick(120, 1500))
+    gauge = [ctx.rng.randrange(1 << 30) for _ in range(ctx.pick(64, 2000))]
+    ctx.shard([{"seeds": seeds[i::k], "reared": reared[i::k], "gauge": gauge[i::k]} for i in range(k)], timeout=ctx.pick(120, 1500))
+    ctx.floor("registered_io_default_references_checked", ctx.pick(600, 20000))
     ctx.floor("reared_clone_references_checked", ctx.pick(600, 20000))
     ctx.floor("reared_renamings_S", 30)
     for name, v in MEASURED48.items():
